@@ -875,6 +875,7 @@ def declared_lookup_rule(cx, rep, rid):
     F = cx.rs
     LOOKUPS = {"get", "contains_key", "get_mut", "remove", "get_key_value"}
     n_sites = 0
+    n_restricted = 0
     for g, t in sorted(F.hir.items()):
         f = F.fns.get(g)
         if f is None or f.crate == WASM or g.startswith("<") or not re.search(r"/src/(frontend|ast)/", f.file or ""):
@@ -909,6 +910,13 @@ def declared_lookup_rule(cx, rep, rid):
             if vs is None or vs["k"] != "P.Binding":
                 continue
             if ip is not None and ip["k"] == "P.Expr" and (ip.get("def") or "").endswith("::None"):
+                # decided by the pattern itself: the lookups in these declared properties only ever see objects
+                # without an index signature.  They still show that the matcher sees the take-apart-and-look-up
+                # sites (floor): b101 moves the guard `if !indexed_properties.is_none() { break }` of all_of into
+                # the let-else pattern `Object { vs, indexed_properties: None }` of a helper, which leaves no
+                # unrestricted site in the tree
+                n_restricted += sum(1 for x in walk(t["body"]) if x["k"] == "MethodCall" and x["method"] in LOOKUPS
+                                    and any(y["k"] == "Path" and y.get("lid") == vs["lid"] for y in walk(x["recv"])))
                 continue
             V = vs["lid"]
             I = ip["lid"] if ip is not None and ip["k"] == "P.Binding" else None
@@ -1015,7 +1023,7 @@ def declared_lookup_rule(cx, rep, rid):
                 rep.ob(rid, "%s/lookup#%d" % (g.rsplit("::", 1)[-1], i), ok,
                        "%s takes an object type apart without requiring `indexed_properties: None` and looks a key up in its declared properties (%s) without consulting the index signature where the key is missing: for an object with an index signature an undeclared key is answered as if the object had no such key (`Record<string, number>[\"a\" | \"b\"]` loses members)" % (g, "line %s" % L.get("line")),
                        "%s:%s" % (f.file, L.get("line")), sample={"fn": g, "index_signature_binding": "bound" if I else "ignored"})
-    rep.floor(rid, "key lookups in the declared properties of objects that may have an index signature", n_sites, 1)
+    rep.floor(rid, "key lookups in the declared properties of objects that may have an index signature", n_sites + n_restricted, 1)
 
 
 # ---------------------------------------------------------------------------------------------------- C07.11
